@@ -1,8 +1,904 @@
-//! C02 — not implemented yet.
+//! C02 — FEEL numbers compute as IEEE 754-2008 decimal128 (34 digits, half-even).
+//!
+//! Implementation, three layers: `dmntk_feel_number::dec::dec_*` (the FFI wrappers around the
+//! bundled C decNumber), `FeelNumber` operators/methods, and the same operations through FEEL
+//! text (parse + evaluate with the operands bound as variables).
+//! Model: `Dmn.Dec.*` (raw), `Dmn.FNum.*` (FeelNumber level) through the driver; specification
+//! `AddSpec`/`MulSpec`/`DivSpec`/`SqrtSpec`/`FloorSpec`/`CeilSpec`/`RescaleSpec`
+//! (`RoundsHalfEven` in scaled integers) executed by the driver on the answers.
 
-use crate::report::Report;
+use crate::model::Model;
+use crate::report::{Kind, Report};
+use crate::rng::Rng;
+use crate::sexp::Sexp;
+use crate::util::guarded;
 use crate::Cfg;
+use dmntk_feel::values::Value;
+use dmntk_feel::{FeelNumber, Name, Scope};
+use dmntk_feel_number::dec::*;
+use serde_json::json;
+use std::cmp::Ordering;
+use std::str::FromStr;
 
-pub fn run(_cfg: &Cfg) -> Report {
-  Report::new("C02", "not implemented")
+// ---------------------------------------------------------------------------------- shared helpers
+
+/// A finite decimal as sign, coefficient digits (no leading zeros; "0" for zero), exponent.
+#[derive(Clone, Debug, PartialEq, Eq, Hash)]
+pub struct D {
+  pub neg: bool,
+  pub coeff: String,
+  pub exp: i32,
+}
+
+#[derive(Clone, Debug, PartialEq, Eq, Hash)]
+pub enum DecV {
+  Fin(D),
+  Inf(bool),
+  NaN,
+}
+
+impl D {
+  pub fn new(neg: bool, coeff: &str, exp: i32) -> D {
+    let c = coeff.trim_start_matches('0');
+    D { neg, coeff: if c.is_empty() { "0".to_string() } else { c.to_string() }, exp }
+  }
+  /// Text accepted by decQuadFromString that denotes exactly this triple.
+  pub fn to_sci_input(&self) -> String {
+    format!("{}{}E{}", if self.neg { "-" } else { "" }, self.coeff, self.exp)
+  }
+  pub fn wire(&self) -> String {
+    format!("(n {} {} {})", self.neg, self.coeff, self.exp)
+  }
+  pub fn is_zero(&self) -> bool {
+    self.coeff == "0"
+  }
+  /// decNumberReduce on the triple (harness-side canonicalisation, used to compare numbers
+  /// obtained through `{:?}`, which prints the reduced value).
+  pub fn reduced(&self) -> D {
+    if self.is_zero() {
+      return D { neg: self.neg, coeff: "0".into(), exp: 0 };
+    }
+    let mut c = self.coeff.clone();
+    let mut e = self.exp;
+    while c.len() > 1 && c.ends_with('0') && e < 6111 {
+      c.pop();
+      e += 1;
+    }
+    D { neg: self.neg, coeff: c, exp: e }
+  }
+  pub fn quad(&self) -> DecQuad {
+    dec_from_string(&self.to_sci_input())
+  }
+}
+
+impl DecV {
+  pub fn wire(&self) -> String {
+    match self {
+      DecV::Fin(d) => d.wire(),
+      DecV::Inf(n) => format!("(inf {})", n),
+      DecV::NaN => "(nan)".to_string(),
+    }
+  }
+  pub fn from_sexp(s: &Sexp) -> Option<DecV> {
+    let l = s.as_list()?;
+    match l.first()?.as_atom()? {
+      "fin" | "n" if l.len() == 4 => Some(DecV::Fin(D::new(l[1].as_atom()? == "true", l[2].as_atom()?, l[3].as_atom()?.parse().ok()?))),
+      "inf" if l.len() == 2 => Some(DecV::Inf(l[1].as_atom()? == "true")),
+      "nan" => Some(DecV::NaN),
+      _ => None,
+    }
+  }
+  pub fn reduced(&self) -> DecV {
+    match self {
+      DecV::Fin(d) => DecV::Fin(d.reduced()),
+      x => x.clone(),
+    }
+  }
+}
+
+/// Parses what decQuadToString prints (`-1.23E+5`, `0.00123`, `Infinity`, `NaN`) into the triple.
+pub fn parse_sci(s: &str) -> Option<DecV> {
+  let (neg, body) = match s.strip_prefix('-') {
+    Some(r) => (true, r),
+    None => (false, s),
+  };
+  if body == "Infinity" {
+    return Some(DecV::Inf(neg));
+  }
+  if body == "NaN" || body == "sNaN" {
+    return Some(DecV::NaN);
+  }
+  let (mant, e) = match body.find('E') {
+    Some(i) => (&body[..i], body[i + 1..].parse::<i64>().ok()?),
+    None => (body, 0i64),
+  };
+  let (ip, fp) = match mant.find('.') {
+    Some(i) => (&mant[..i], &mant[i + 1..]),
+    None => (mant, ""),
+  };
+  if ip.is_empty() && fp.is_empty() {
+    return None;
+  }
+  if !ip.chars().all(|c| c.is_ascii_digit()) || !fp.chars().all(|c| c.is_ascii_digit()) {
+    return None;
+  }
+  let digits = format!("{}{}", ip, fp);
+  Some(DecV::Fin(D::new(neg, &digits, (e - fp.len() as i64) as i32)))
+}
+
+/// Decodes `(s cp … (r cp count) …)` (see Driver/C07.lean `encText`); `None` for `panic`.
+pub fn decode_text(s: &Sexp) -> Option<String> {
+  let l = s.as_list()?;
+  if l.first()?.as_atom()? != "s" {
+    return None;
+  }
+  let mut out = String::new();
+  for it in &l[1..] {
+    match it {
+      Sexp::Atom(a) => out.push(char::from_u32(a.parse().ok()?)?),
+      Sexp::List(r) if r.len() == 3 && r[0].as_atom() == Some("r") => {
+        let c = char::from_u32(r[1].as_atom()?.parse().ok()?)?;
+        let n: usize = r[2].as_atom()?.parse().ok()?;
+        for _ in 0..n {
+          out.push(c);
+        }
+      }
+      _ => return None,
+    }
+  }
+  Some(out)
+}
+
+/// Evaluates FEEL text with the given variables bound in the scope.
+pub fn feel_eval(vars: &[(&str, Value)], text: &str) -> Result<Value, String> {
+  let scope = Scope::default();
+  for (k, v) in vars {
+    let name: Name = (*k).into();
+    scope.set_entry(&name, v.clone());
+  }
+  let node = dmntk_feel_parser::parse_expression(&scope, text, false).map_err(|e| e.to_string())?;
+  dmntk_feel_evaluator::evaluate(&scope, &node).map_err(|e| e.to_string())
+}
+
+pub fn number_of(d: &D) -> Option<FeelNumber> {
+  FeelNumber::from_str(&d.to_sci_input()).ok()
+}
+
+/// What a FeelNumber holds, through `{:?}` (the *reduced* value in decQuadToString notation).
+pub fn observe(n: &FeelNumber) -> Option<DecV> {
+  parse_sci(&format!("{:?}", n))
+}
+
+/// Asks the requests on several driver processes at once (one per shard), keeping the order.
+pub fn ask_parallel(driver: &str, reqs: &[String]) -> (Vec<String>, u64) {
+  let shards = std::thread::available_parallelism().map(|n| n.get()).unwrap_or(4).min(16);
+  if reqs.len() < 2000 || shards < 2 {
+    let mut m = Model::start(driver);
+    let a = m.ask_batch(reqs);
+    return (a, reqs.len() as u64);
+  }
+  let per = (reqs.len() + shards - 1) / shards;
+  let mut out: Vec<Vec<String>> = vec![];
+  std::thread::scope(|sc| {
+    let handles: Vec<_> = reqs
+      .chunks(per)
+      .map(|chunk| {
+        sc.spawn(move || {
+          let mut m = Model::start(driver);
+          m.ask_batch(chunk)
+        })
+      })
+      .collect();
+    for h in handles {
+      out.push(h.join().expect("driver shard"));
+    }
+  });
+  (out.into_iter().flatten().collect(), reqs.len() as u64)
+}
+
+// ---------------------------------------------------------------------------------- generators
+
+fn digits(rng: &mut Rng, len: usize) -> String {
+  let mut s = String::new();
+  for i in 0..len {
+    let d = if i == 0 {
+      1 + rng.below(9)
+    } else {
+      match rng.below(10) {
+        0 => 0,
+        1 => 9,
+        _ => rng.below(10),
+      }
+    };
+    s.push(char::from(b'0' + d as u8));
+  }
+  s
+}
+
+fn rdigits(rng: &mut Rng, max: u64) -> String {
+  let len = 1 + rng.below(max) as usize;
+  digits(rng, len)
+}
+
+fn nines(len: usize) -> String {
+  "9".repeat(len)
+}
+
+fn any_exp(rng: &mut Rng) -> i32 {
+  match rng.below(6) {
+    0 => rng.range(-6176, 6111) as i32,
+    1 => rng.range(-6176, -6100) as i32,
+    2 => rng.range(6040, 6111) as i32,
+    _ => rng.range(-40, 40) as i32,
+  }
+}
+
+fn moderate(rng: &mut Rng) -> D {
+  let len = 1 + rng.below(34) as usize;
+  D::new(rng.chance(1, 2), &digits(rng, len), rng.range(-40, 40) as i32)
+}
+
+/// One operand pair of the named class.
+fn pair(rng: &mut Rng, class: &str) -> (D, D) {
+  match class {
+    // exact ties at the 34th digit, constructed
+    "tie" => {
+      match rng.below(4) {
+        0 => {
+          // a has 34 digits at exponent e, b = ±5 at exponent e-1: a ± 0.5 ulp
+          let e = rng.range(-6100, 6000) as i32;
+          let mut c = digits(rng, 34);
+          if rng.chance(1, 4) {
+            c = nines(34);
+          }
+          let neg = rng.chance(1, 2);
+          (D::new(neg, &c, e), D::new(if rng.chance(1, 2) { neg } else { !neg }, "5", e - 1))
+        }
+        1 => {
+          // a·1.5 with a odd and a·15 of 35 digits: exact …·5 one digit too long
+          let mut c = format!("{}{}", 1 + rng.below(5), digits(rng, 33));
+          let last = (c.pop().unwrap() as u8 - b'0') | 1;
+          c.push(char::from(b'0' + last));
+          let c = if c.as_str() < "6666666666666666666666666666666667" { format!("7{}", &c[1..]) } else { c };
+          // 7…·15 has 36 digits → still a tie case only sometimes; keep both shapes
+          (D::new(rng.chance(1, 2), &c, rng.range(-3000, 3000) as i32), D::new(rng.chance(1, 2), "15", rng.range(-30, 30) as i32))
+        }
+        2 => {
+          // a / 2 with a odd of 34 digits ≥ 2·10^33: quotient has 35 significant digits ending in 5
+          let mut c = format!("{}{}", 2 + rng.below(8), digits(rng, 33));
+          let last = (c.pop().unwrap() as u8 - b'0') | 1;
+          c.push(char::from(b'0' + last));
+          let divisor = *rng.pick(&["2", "20", "4", "8", "16", "5"]);
+          (D::new(rng.chance(1, 2), &c, rng.range(-3000, 3000) as i32), D::new(rng.chance(1, 2), divisor, rng.range(-30, 30) as i32))
+        }
+        _ => {
+          // subnormal ties: x·10^-6177 with last digit 5 → half of the last subnormal place
+          let len = 1 + rng.below(20) as usize;
+          let mut c = digits(rng, len);
+          c.push('5');
+          (D::new(rng.chance(1, 2), &c, -6100), D::new(rng.chance(1, 2), "1", -77))
+        }
+      }
+    }
+    // operands 34+ orders of magnitude apart
+    "far" => {
+      let a = D::new(rng.chance(1, 2), &rdigits(rng, 34), rng.range(-3000, 3000) as i32);
+      let wide = rng.chance(1, 3);
+      let gap = 34 + rng.below(if wide { 6000 } else { 10 }) as i32;
+      let eb = (a.exp + a.coeff.len() as i32 - gap - rng.below(34) as i32).clamp(-6176, 6111);
+      let b = D::new(rng.chance(1, 2), &rdigits(rng, 34), eb);
+      if rng.chance(1, 2) {
+        (a, b)
+      } else {
+        (b, a)
+      }
+    }
+    // cancellation
+    "cancel" => {
+      let len = 2 + rng.below(33) as usize;
+      let c = digits(rng, len);
+      let e = any_exp(rng);
+      let mut c2: Vec<u8> = c.bytes().collect();
+      let k = 1 + rng.below(3.min(len as u64 - 1)) as usize;
+      for i in (len - k)..len {
+        c2[i] = b'0' + rng.below(10) as u8;
+      }
+      let neg = rng.chance(1, 2);
+      let b = D::new(if rng.chance(3, 4) { neg } else { !neg }, std::str::from_utf8(&c2).unwrap(), e);
+      let a = D::new(neg, &c, e);
+      if rng.chance(1, 5) {
+        // same value, different number of trailing zeros
+        let z = 1 + rng.below((35 - len) as u64) as usize;
+        let bz = D::new(a.neg, &format!("{}{}", c, "0".repeat(z.min(34 - len))), (e - z.min(34 - len) as i32).max(-6176));
+        (a, bz)
+      } else {
+        (a, b)
+      }
+    }
+    // zeros of both signs and all exponents
+    "zero" => {
+      let z = D::new(rng.chance(1, 2), "0", rng.range(-6176, 6111) as i32);
+      let o = if rng.chance(1, 3) { D::new(rng.chance(1, 2), "0", rng.range(-6176, 6111) as i32) } else { D::new(rng.chance(1, 2), &rdigits(rng, 34), any_exp(rng)) };
+      if rng.chance(1, 2) {
+        (z, o)
+      } else {
+        (o, z)
+      }
+    }
+    // subnormal operands and results
+    "subnormal" => {
+      match rng.below(3) {
+        0 => (
+          D::new(rng.chance(1, 2), &rdigits(rng, 20), rng.range(-6176, -6150) as i32),
+          D::new(rng.chance(1, 2), &rdigits(rng, 20), rng.range(-6176, -6150) as i32),
+        ),
+        1 => {
+          // product / quotient landing in the subnormal range
+          let ea = rng.range(-3200, -3000) as i32;
+          (D::new(rng.chance(1, 2), &rdigits(rng, 34), ea), D::new(rng.chance(1, 2), &rdigits(rng, 34), rng.range(-3200, -2950) as i32))
+        }
+        _ => (
+          D::new(rng.chance(1, 2), &rdigits(rng, 34), rng.range(-6176, -6100) as i32),
+          D::new(rng.chance(1, 2), &rdigits(rng, 5), rng.range(-5, 80) as i32),
+        ),
+      }
+    }
+    // overflow / underflow edges
+    "edge" => {
+      match rng.below(5) {
+        0 => (D::new(rng.chance(1, 2), &nines(34), 6111), D::new(rng.chance(1, 2), &rdigits(rng, 3), rng.range(6070, 6111) as i32)),
+        1 => (D::new(rng.chance(1, 2), &nines(34), 6111), D::new(rng.chance(1, 2), &rdigits(rng, 2), rng.range(-2, 2) as i32)),
+        2 => {
+          let ea = rng.range(3000, 3100) as i32;
+          (D::new(rng.chance(1, 2), &rdigits(rng, 34), ea), D::new(rng.chance(1, 2), &rdigits(rng, 34), rng.range(3000, 3120) as i32))
+        }
+        3 => (D::new(rng.chance(1, 2), &rdigits(rng, 34), rng.range(6050, 6111) as i32), D::new(rng.chance(1, 2), &rdigits(rng, 34), rng.range(-6176, -6000) as i32)),
+        _ => (D::new(rng.chance(1, 2), &digits(rng, 34), rng.range(6100, 6111) as i32), D::new(rng.chance(1, 2), &digits(rng, 34), rng.range(6100, 6111) as i32)),
+      }
+    }
+    // small human-sized integers and decimals (exact arithmetic, exponent preferences)
+    "small" => {
+      let a = D::new(rng.chance(1, 3), &rng.below(2000).to_string(), -(rng.below(4) as i32));
+      let b = D::new(rng.chance(1, 3), &rng.below(200).to_string(), -(rng.below(4) as i32) + if rng.chance(1, 6) { 3 } else { 0 });
+      (a, b)
+    }
+    // 1..34 digit coefficients
+    _ => (
+      D::new(rng.chance(1, 2), &rdigits(rng, 34), any_exp(rng)),
+      D::new(rng.chance(1, 2), &rdigits(rng, 34), any_exp(rng)),
+    ),
+  }
+}
+
+const CLASSES: [&str; 9] = ["tie", "far", "cancel", "zero", "subnormal", "edge", "small", "digits", "digits34"];
+const BINARY: [&str; 6] = ["add", "sub", "mul", "div", "remainder", "modulo"];
+const UNARY: [&str; 12] = ["neg", "abs", "reduce", "floor", "ceiling", "trunc", "fract", "sqrt", "even", "odd", "isint", "rescale"];
+
+fn ord_str(o: Option<Ordering>) -> &'static str {
+  match o {
+    Some(Ordering::Less) => "lt",
+    Some(Ordering::Equal) => "eq",
+    Some(Ordering::Greater) => "gt",
+    None => "none",
+  }
+}
+
+fn show_quad(q: &DecQuad) -> Option<DecV> {
+  parse_sci(&dec_to_string(q))
+}
+
+/// dec.rs level: (raw result as DecV or bool text)
+fn impl_raw(op: &str, a: &D, b: Option<&D>, k: i32) -> Result<String, String> {
+  let qa = a.quad();
+  let r = |q: DecQuad| show_quad(&q).map(|v| v.wire()).unwrap_or_else(|| format!("unparsed:{}", dec_to_string(&q)));
+  guarded(|| match op {
+    "add" => r(dec_add(&qa, &b.unwrap().quad())),
+    "sub" => r(dec_subtract(&qa, &b.unwrap().quad())),
+    "mul" => r(dec_multiply(&qa, &b.unwrap().quad())),
+    "div" => r(dec_divide(&qa, &b.unwrap().quad())),
+    "remainder" => r(dec_remainder(&qa, &b.unwrap().quad())),
+    "neg" => r(dec_minus(&qa)),
+    "abs" => r(dec_abs(&qa)),
+    "reduce" => r(dec_reduce(&qa)),
+    "floor" => r(dec_floor(&qa)),
+    "ceiling" => r(dec_ceiling(&qa)),
+    "trunc" => r(dec_trunc(&qa)),
+    "fract" => r(dec_fract(&qa)),
+    "sqrt" => r(dec_square_root(&qa)),
+    "rescale" => r(dec_rescale(&qa, &dec_from_string(&format!("{}", -k)))),
+    "isint" => dec_is_integer(&qa).to_string(),
+    "even" => dec_is_zero(&dec_remainder(&qa, &DEC_TWO)).to_string(),
+    "odd" => (dec_is_integer(&qa) && !dec_is_zero(&dec_remainder(&qa, &DEC_TWO))).to_string(),
+    _ => "na".to_string(),
+  })
+}
+
+/// FeelNumber level; numbers observed through `{:?}` (reduced).
+fn impl_feelnumber(op: &str, a: &D, b: Option<&D>, k: i32) -> Result<String, String> {
+  guarded(|| {
+    let x = match number_of(a) {
+      Some(x) => x,
+      None => return "from_str-failed".to_string(),
+    };
+    let y = b.and_then(number_of);
+    let show = |n: FeelNumber| observe(&n).map(|v| v.wire()).unwrap_or_else(|| format!("unparsed:{:?}", n));
+    let showo = |n: Option<FeelNumber>| n.map(|n| show(n)).unwrap_or_else(|| "(none)".to_string());
+    match op {
+      "add" => show(x + y.unwrap()),
+      "sub" => show(x - y.unwrap()),
+      "mul" => show(x * y.unwrap()),
+      "div" => show(x / y.unwrap()),
+      "modulo" => show(x % y.unwrap()),
+      "neg" => show(-x),
+      "abs" => show(x.abs()),
+      "floor" => show(x.floor()),
+      "ceiling" => show(x.ceiling()),
+      "trunc" => show(x.trunc()),
+      "fract" => show(x.fract()),
+      "sqrt" => showo(x.sqrt()),
+      "rescale" => show(x.round(&FeelNumber::from_i128(k as i128))),
+      "even" => x.even().to_string(),
+      "odd" => x.odd().to_string(),
+      "isint" => x.is_integer().to_string(),
+      "reduce" => show(x),
+      _ => "na".to_string(),
+    }
+  })
+}
+
+fn feel_expr(op: &str, k: i32) -> Option<String> {
+  Some(match op {
+    "add" => "a + b".to_string(),
+    "sub" => "a - b".to_string(),
+    "mul" => "a * b".to_string(),
+    "div" => "a / b".to_string(),
+    "modulo" => "modulo(a, b)".to_string(),
+    "neg" => "-a".to_string(),
+    "abs" => "abs(a)".to_string(),
+    "floor" => "floor(a)".to_string(),
+    "ceiling" => "ceiling(a)".to_string(),
+    "sqrt" => "sqrt(a)".to_string(),
+    "rescale" => format!("decimal(a, {})", k),
+    "even" => "even(a)".to_string(),
+    "odd" => "odd(a)".to_string(),
+    _ => return None,
+  })
+}
+
+/// The expected FEEL-level answer given the model's FeelNumber-level answer `f` for the
+/// operands; mirrors the guards of builders.rs / core.rs around the FeelNumber call.
+fn feel_expected(op: &str, a: &D, b: Option<&D>, f: &str) -> String {
+  match op {
+    // builders.rs:426 / core.rs:690: a zero divisor gives null
+    "div" | "modulo" if b.map(|b| b.is_zero()).unwrap_or(false) => "null".to_string(),
+    // core.rs:923: negative argument gives null; FeelNumber::sqrt gives None for non-finite
+    "sqrt" if a.neg && !a.is_zero() => "null".to_string(),
+    "sqrt" if f == "(none)" => "null".to_string(),
+    _ => f.to_string(),
+  }
+}
+
+fn value_show(v: &Value) -> String {
+  match v {
+    Value::Number(n) => observe(n).map(|v| v.wire()).unwrap_or_else(|| format!("unparsed:{:?}", n)),
+    Value::Boolean(b) => b.to_string(),
+    Value::Null(_) => "null".to_string(),
+    other => format!("other:{}", other),
+  }
+}
+
+fn canon_model_f(f: &Sexp) -> String {
+  // model FeelNumber-level answers are compared after reduce (the observation `{:?}` reduces)
+  match DecV::from_sexp(f) {
+    Some(v) => v.reduced().wire(),
+    None => f.to_string(),
+  }
+}
+
+pub fn run(cfg: &Cfg) -> Report {
+  let mut rep = Report::new(
+    "C02",
+    "operand classes (exact ties at the 34th digit, 34+ orders of magnitude apart, cancellation, zeros of both signs and all exponents, subnormals, overflow/underflow edges, small exact, 1..34-digit coefficients) x every operator (add sub mul div remainder modulo neg abs reduce floor ceiling trunc fract sqrt even odd is_integer decimal compare) at three layers (dec.rs wrappers, FeelNumber, FEEL text). Non-trivial: the result is not one of the operands unchanged; distinct by request line.",
+  );
+  // debugging aid: VERIF_PROBE="expr;expr" prints what the implementation answers
+  if let Ok(p) = std::env::var("VERIF_PROBE") {
+    for e in p.split(';') {
+      let r = guarded(|| feel_eval(&[], e));
+      let shown = match &r {
+        Ok(Ok(Value::Number(n))) => format!("number Display={} Debug={:?}", n, n),
+        Ok(Ok(v)) => format!("{}", v),
+        Ok(Err(e)) => format!("error {}", e),
+        Err(p) => format!("panic {}", p),
+      };
+      eprintln!("PROBE {} => {}", e, shown);
+    }
+  }
+  let thorough = cfg.tier == "thorough";
+  let mut rng = Rng::new(cfg.seed);
+  let mut model = Model::start(&cfg.driver);
+  let per_cell = if thorough { 7_000 } else { 130 };
+
+  struct Case {
+    class: &'static str,
+    op: &'static str,
+    a: D,
+    b: Option<D>,
+    k: i32,
+    req: String,
+  }
+  let mut cases: Vec<Case> = vec![];
+  // corpus
+  let corpus: Vec<(&'static str, D, Option<D>, i32)> = vec![
+    ("mul", D::new(false, &nines(34), 6111), Some(D::new(false, "10", 0)), 0),
+    ("add", D::new(false, &nines(34), 6111), Some(D::new(false, "1", 6111)), 0),
+    ("add", D::new(false, &nines(34), 0), Some(D::new(false, "5", -1)), 0),
+    ("add", D::new(false, "1", 6111), Some(D::new(false, "1", -6176)), 0),
+    ("sub", D::new(false, "1", 0), Some(D::new(false, "1", 0)), 0),
+    ("sub", D::new(true, "0", 0), Some(D::new(false, "0", 0)), 0),
+    ("div", D::new(false, "1", 0), Some(D::new(false, "3", 0)), 0),
+    ("div", D::new(false, "2", 0), Some(D::new(false, "3", 0)), 0),
+    ("div", D::new(false, "0", 0), Some(D::new(false, "0", 0)), 0),
+    ("div", D::new(false, "1", 0), Some(D::new(true, "0", 0)), 0),
+    ("div", D::new(false, "1", -6176), Some(D::new(false, "2", 0)), 0),
+    ("div", D::new(false, "3", -6176), Some(D::new(false, "2", 0)), 0),
+    ("mul", D::new(false, "1", -3088), Some(D::new(false, "5", -3089)), 0),
+    ("sqrt", D::new(false, "2", 0), None, 0),
+    ("sqrt", D::new(false, "4000", -3), None, 0),
+    ("sqrt", D::new(true, "0", -3), None, 0),
+    ("sqrt", D::new(false, "1", -6176), None, 0),
+    ("sqrt", D::new(false, &nines(34), 6111), None, 0),
+    ("rescale", D::new(false, "1234567890123456789012345678901234", 0), None, 2),
+    ("rescale", D::new(false, &nines(34), -1), None, 0),
+    ("rescale", D::new(false, "0", 0), None, -3),
+    ("even", D::new(false, "1", 40), None, 0),
+    ("even", D::new(false, "2", 34), None, 0),
+    ("odd", D::new(false, "10", -1), None, 0),
+    ("odd", D::new(false, "30", -1), None, 0),
+    ("floor", D::new(true, "5", -1), None, 0),
+    ("ceiling", D::new(true, "5", -1), None, 0),
+    ("ceiling", D::new(true, "0", -1), None, 0),
+    ("floor", D::new(true, "1", -100), None, 0),
+    ("modulo", D::new(false, "1", 6111), Some(D::new(false, "3", -6176)), 0),
+  ];
+  let mk = |class: &'static str, op: &'static str, a: D, b: Option<D>, k: i32| -> Case {
+    let req = match (&b, op) {
+      (Some(b), _) => format!("(c02 op {} {} {})", op, a.wire(), b.wire()),
+      (None, "rescale") => format!("(c02 op rescale {} {})", a.wire(), k),
+      (None, _) => format!("(c02 op {} {})", op, a.wire()),
+    };
+    Case { class, op, a, b, k, req }
+  };
+  for (op, a, b, k) in corpus {
+    let op_static: &'static str = BINARY.iter().chain(UNARY.iter()).find(|o| **o == op).unwrap();
+    cases.push(mk("corpus", op_static, a, b, k));
+  }
+  for class in CLASSES {
+    for op in BINARY {
+      for _ in 0..per_cell {
+        let (a, b) = pair(&mut rng, class);
+        cases.push(mk(class, op, a, Some(b), 0));
+      }
+    }
+    for op in UNARY {
+      for _ in 0..(per_cell / 2).max(1) {
+        let (a, b) = pair(&mut rng, class);
+        let x = if rng.chance(1, 2) { a } else { b };
+        let k = if op == "rescale" {
+          match rng.below(4) {
+            0 => rng.range(-6111, 6175) as i32,
+            1 => -(x.exp) + rng.range(-3, 3) as i32,
+            2 => -(x.exp + x.coeff.len() as i32) + rng.range(-2, 2) as i32,
+            _ => rng.range(-5, 40) as i32,
+          }
+          .clamp(-6111, 6175)
+        } else {
+          0
+        };
+        // perfect squares for sqrt now and then
+        let x = if op == "sqrt" && rng.chance(1, 4) {
+          let r = rng.below(1_000_000_000) as u128 + 1;
+          D::new(false, &(r * r).to_string(), 2 * (rng.range(-20, 20) as i32) + if rng.chance(1, 3) { 1 } else { 0 })
+        } else {
+          x
+        };
+        cases.push(mk(class, op, x, None, k));
+      }
+    }
+  }
+
+  // ---------------------------------------------------------------- run: raw + FeelNumber + FEEL
+  let reqs: Vec<String> = cases.iter().map(|c| c.req.clone()).collect();
+  let answers = model.ask_batch(&reqs);
+  let mut judge_queue: Vec<(usize, String)> = vec![];
+  for (idx, (c, ans)) in cases.iter().zip(answers.iter()).enumerate() {
+    let input = c.req.clone();
+    let parsed = Sexp::parse(ans);
+    let l = match parsed.as_ref().and_then(|s| s.as_list()) {
+      Some(l) if l.len() == 4 && l[0].as_atom() == Some("op") => l.to_vec(),
+      _ => {
+        rep.disagree(Kind::ImplVsModel, c.op, "driver-error", &input, "", ans);
+        continue;
+      }
+    };
+    let m_raw = match DecV::from_sexp(&l[1]) {
+      Some(v) => v.wire(),
+      None => l[1].to_string(),
+    };
+    let m_f = canon_model_f(&l[2]);
+    let spec_ok = l[3].as_atom().unwrap_or("na").to_string();
+    let nontrivial = m_raw != c.a.wire() && Some(m_raw.clone()) != c.b.as_ref().map(|b| b.wire());
+    rep.case(&input, nontrivial);
+    rep.hit(&format!("class:{}", c.class));
+    rep.hit(&format!("op:{}", c.op));
+    rep.hit(&format!(
+      "result:{}",
+      if m_raw.starts_with("(inf") {
+        "infinite"
+      } else if m_raw.starts_with("(nan") {
+        "nan"
+      } else if m_raw.starts_with("(n ") {
+        match DecV::from_sexp(&l[1]) {
+          Some(DecV::Fin(d)) if d.is_zero() => "zero",
+          Some(DecV::Fin(d)) if d.exp + (d.coeff.len() as i32) - 1 < -6143 => "subnormal",
+          Some(DecV::Fin(d)) if d.exp == 6111 && d.coeff.len() == 34 => "clamped-or-top",
+          Some(DecV::Fin(d)) if d.coeff.len() == 34 => "34 digits",
+          _ => "short",
+        }
+      } else {
+        "boolean"
+      }
+    ));
+    // ---- layer 1: dec.rs
+    if c.op != "modulo" {
+      match impl_raw(c.op, &c.a, c.b.as_ref(), c.k) {
+        Ok(i_raw) => {
+          if i_raw != m_raw {
+            rep.disagree(Kind::ImplVsModel, c.op, &format!("dec.rs {} differs from the model Dec.{}", c.op, c.op), &input, &i_raw, &m_raw);
+            judge_queue.push((idx, i_raw.clone()));
+          } else if spec_ok == "false" {
+            rep.disagree(Kind::ImplVsSpec, c.op, &spec_signature(c.op, &c.a), &input, &i_raw, "the specification of the operation");
+          }
+        }
+        Err(p) => rep.disagree(Kind::ImplVsSpec, c.op, &format!("dec.rs {} panics", c.op), &input, &p, &m_raw),
+      }
+    }
+    // ---- layer 2: FeelNumber
+    match impl_feelnumber(c.op, &c.a, c.b.as_ref(), c.k) {
+      Ok(i_f) => {
+        if i_f != "na" && i_f != m_f {
+          rep.disagree(Kind::ImplVsModel, c.op, &format!("FeelNumber {} differs from the model FNum.{}", c.op, c.op), &input, &i_f, &m_f);
+        }
+      }
+      Err(p) => rep.disagree(Kind::ImplVsSpec, c.op, &format!("FeelNumber {} panics", c.op), &input, &p, &m_f),
+    }
+    // ---- layer 3: FEEL text
+    if let Some(expr) = feel_expr(c.op, c.k) {
+      let va = number_of(&c.a).map(Value::Number);
+      let vb = c.b.as_ref().and_then(number_of).map(Value::Number);
+      if let Some(va) = va {
+        let mut vars: Vec<(&str, Value)> = vec![("a", va)];
+        if let Some(vb) = vb {
+          vars.push(("b", vb));
+        }
+        match guarded(|| feel_eval(&vars, &expr)) {
+          Ok(Ok(v)) => {
+            let shown = value_show(&v);
+            let expected = feel_expected(c.op, &c.a, c.b.as_ref(), &m_f);
+            // the property on the implementation's own answer: never a non-finite number
+            if shown.starts_with("(inf") || shown.starts_with("(nan") {
+              let what = if shown.starts_with("(inf") { "Infinity" } else { "NaN" };
+              rep.disagree(Kind::ImplVsSpec, c.op, &format!("FEEL {} yields {} instead of null", feel_family(c.op), what), &format!("{} with a={} b={}", expr, c.a.to_sci_input(), c.b.as_ref().map(|b| b.to_sci_input()).unwrap_or_default()), &shown, "a finite number or null");
+            }
+            if shown != expected {
+              rep.disagree(Kind::ImplVsModel, c.op, &format!("FEEL {} differs from the model FNum.{}", c.op, c.op), &format!("{} {}", expr, input), &shown, &expected);
+            }
+          }
+          Ok(Err(e)) => rep.disagree(Kind::ImplVsSpec, c.op, &format!("FEEL {} fails to evaluate", c.op), &expr, &e, &m_f),
+          Err(p) => rep.disagree(Kind::ImplVsSpec, c.op, &format!("FEEL {} panics", c.op), &format!("{} {}", expr, input), &p, &m_f),
+        }
+      }
+    }
+    if rep.samples.len() < 10 && nontrivial && (c.class == "tie" || c.class == "edge" || c.class == "subnormal") && idx % 7 == 0 {
+      rep.sample(json!({"request": input, "model_raw_feelnumber_spec": ans}));
+    }
+  }
+  // the specification on the implementation's own (differing) answers
+  for (idx, i_raw) in judge_queue {
+    let c = &cases[idx];
+    let jreq = match (&c.b, c.op) {
+      (Some(b), _) => format!("(c02 judge {} {} {} {})", c.op, c.a.wire(), b.wire(), i_raw),
+      (None, "rescale") => format!("(c02 judge rescale {} {} {})", c.a.wire(), c.k, i_raw),
+      (None, _) => format!("(c02 judge {} {} {})", c.op, c.a.wire(), i_raw),
+    };
+    let jr = model.ask(&jreq);
+    if jr.contains("false") {
+      rep.disagree(Kind::ImplVsSpec, c.op, &spec_signature(c.op, &c.a), &c.req, &i_raw, "the specification of the operation");
+    }
+  }
+
+  // ---------------------------------------------------------------- comparison
+  let n_cmp = if thorough { 200_000 } else { 6_000 };
+  let mut cmp_cases: Vec<(D, D)> = vec![];
+  for i in 0..n_cmp {
+    let class = CLASSES[i % CLASSES.len()];
+    cmp_cases.push(pair(&mut rng, class));
+  }
+  let reqs: Vec<String> = cmp_cases.iter().map(|(a, b)| format!("(c02 cmp {} {})", a.wire(), b.wire())).collect();
+  let answers = model.ask_batch(&reqs);
+  for (((a, b), req), ans) in cmp_cases.iter().zip(reqs.iter()).zip(answers.iter()) {
+    rep.case(req, a != b);
+    rep.hit("op:cmp");
+    let m = Sexp::parse(ans).and_then(|s| s.as_list().and_then(|l| l.get(1).and_then(|x| x.as_atom().map(|s| s.to_string())))).unwrap_or_default();
+    let imp = guarded(|| {
+      let x = number_of(a).unwrap();
+      let y = number_of(b).unwrap();
+      let flag = show_quad(&dec_compare(&a.quad(), &b.quad()));
+      let raw = match flag {
+        Some(DecV::Fin(d)) if d.is_zero() => "eq",
+        Some(DecV::Fin(d)) if d.neg => "lt",
+        Some(DecV::Fin(_)) => "gt",
+        _ => "nan",
+      };
+      (raw.to_string(), ord_str(x.partial_cmp(&y)).to_string(), x == y, ord_str(y.partial_cmp(&x)).to_string())
+    });
+    match imp {
+      Ok((raw, pc, eq, rev)) => {
+        if raw != m {
+          rep.disagree(Kind::ImplVsModel, "cmp", "dec_compare differs from the model Dec.cmp", req, &raw, &m);
+        }
+        if pc != m || eq != (m == "eq") {
+          rep.disagree(Kind::ImplVsModel, "cmp", "FeelNumber comparison differs from the model Dec.cmp", req, &format!("{} {}", pc, eq), &m);
+        }
+        // law on the implementation's answers: antisymmetry
+        let flipped = match pc.as_str() {
+          "lt" => "gt",
+          "gt" => "lt",
+          x => x,
+        };
+        if rev != flipped {
+          rep.disagree(Kind::ImplVsSpec, "cmp", "comparison is not antisymmetric", req, &format!("{} / {}", pc, rev), "mirror images");
+        }
+        // law: equal values compare equal whatever their trailing zeros (reduced forms equal ⇔ eq)
+        let same = a.reduced() == b.reduced() || (a.is_zero() && b.is_zero());
+        if same != eq {
+          rep.disagree(Kind::ImplVsSpec, "cmp", "numbers of equal value do not compare equal (or unequal ones do)", req, &eq.to_string(), &same.to_string());
+        }
+      }
+      Err(p) => rep.disagree(Kind::ImplVsSpec, "cmp", "comparison panics", req, &p, &m),
+    }
+  }
+
+  // ---------------------------------------------------------------- FEEL chains and unmodelled operations
+  // (exp, log, inexact power: not modelled; only "finite number or null" is checked)
+  let mut exprs: Vec<String> = vec![
+    "9999999999999999999999999999999999 * 10 ** 6111 * 10".into(),
+    "10 ** 6144 + 10 ** 6144".into(),
+    "10 ** 6144 * 10".into(),
+    "10 ** 6144 * 10 * 0".into(),
+    "10 ** 6144 * 10 - 10 ** 6144 * 10".into(),
+    "-(10 ** 6144) - 10 ** 6144".into(),
+    "1 / (10 ** -6176) / 0.0000000001".into(),
+    "10 ** 6145".into(),
+    "10 ** -6177".into(),
+    "0 ** 0".into(),
+    "0 ** -1".into(),
+    "(-8) ** 0.5".into(),
+    "exp(100000)".into(),
+    "exp(-100000)".into(),
+    "exp(14149)".into(),
+    "exp(1)".into(),
+    "log(0)".into(),
+    "log(-1)".into(),
+    "log(10)".into(),
+    "sqrt(-1)".into(),
+    "sqrt(2)".into(),
+    "decimal(1234567890123456789012345678901234, 2)".into(),
+    "decimal(10 ** 40, 0)".into(),
+    "decimal(1, 6175)".into(),
+    "decimal(0, -3)".into(),
+    "string(decimal(0, -3))".into(),
+    "modulo(10 ** 6144, 3)".into(),
+    "modulo(10, 0)".into(),
+    "1 / 0".into(),
+    "even(10 ** 40)".into(),
+    "even(2 * 10 ** 34)".into(),
+    "odd(1.0)".into(),
+    "odd(3.00)".into(),
+    "odd(10 ** 2 + 1)".into(),
+    "abs(-(10 ** 6144) * 10)".into(),
+    "floor(10 ** 6144 * 10)".into(),
+  ];
+  let n_chain = if thorough { 20_000 } else { 1_500 };
+  for _ in 0..n_chain {
+    let big = |rng: &mut Rng| -> String {
+      match rng.below(6) {
+        0 => format!("10 ** {}", rng.range(6000, 6144)),
+        1 => format!("10 ** -{}", rng.range(6000, 6176)),
+        2 => format!("{}", rng.below(1000)),
+        3 => format!("{}.{}", rng.below(100), rng.below(1000)),
+        4 => format!("(-{})", rng.below(50)),
+        _ => format!("{} * 10 ** {}", 1 + rng.below(99), rng.range(-6100, 6100)),
+      }
+    };
+    let e = match rng.below(10) {
+      0 => format!("{} * {} * {}", big(&mut rng), big(&mut rng), big(&mut rng)),
+      1 => format!("{} + {} * {}", big(&mut rng), big(&mut rng), big(&mut rng)),
+      2 => format!("{} / {} / {}", big(&mut rng), big(&mut rng), big(&mut rng)),
+      3 => format!("exp({})", big(&mut rng)),
+      4 => format!("log({})", big(&mut rng)),
+      5 => format!("{} ** {}", big(&mut rng), big(&mut rng)),
+      6 => format!("sqrt({})", big(&mut rng)),
+      7 => format!("modulo({}, {})", big(&mut rng), big(&mut rng)),
+      8 => format!("decimal({}, {})", big(&mut rng), rng.range(-40, 40)),
+      _ => format!("{} - {} * {}", big(&mut rng), big(&mut rng), big(&mut rng)),
+    };
+    exprs.push(e);
+  }
+  for e in &exprs {
+    rep.case(&format!("feel {}", e), true);
+    let fam = if e.starts_with("exp(") {
+      "exp()"
+    } else if e.starts_with("log(") {
+      "log()"
+    } else if e.starts_with("sqrt(") {
+      "sqrt()"
+    } else if e.starts_with("decimal(") || e.starts_with("string(decimal(") {
+      "decimal()"
+    } else if e.starts_with("modulo(") {
+      "modulo()"
+    } else if e.starts_with("even(") || e.starts_with("odd(") {
+      "even()/odd()"
+    } else if e.starts_with("abs(") || e.starts_with("floor(") {
+      "arithmetic operators"
+    } else if e.contains("**") && !e.contains(" * ") && !e.contains(" + ") && !e.contains(" / ") && !e.contains(" - ") {
+      "exponentiation"
+    } else {
+      "arithmetic operators"
+    };
+    rep.hit(&format!("feel-chain:{}", fam));
+    match guarded(|| feel_eval(&[], e)) {
+      Ok(Ok(Value::Number(n))) => {
+        let shown = format!("{:?}", n);
+        if shown.contains("Inf") || shown.contains("NaN") {
+          let what = if shown.contains("Inf") { "Infinity" } else { "NaN" };
+          rep.disagree(Kind::ImplVsSpec, "feel_arith_finite", &format!("FEEL {} yields {} instead of null", fam, what), e, &shown, "a finite number or null");
+        }
+      }
+      Ok(Ok(_)) => {}
+      Ok(Err(_)) => {}
+      Err(p) => rep.disagree(Kind::ImplVsSpec, "feel_arith_finite", &format!("FEEL {} panics", fam), e, &p, "a finite number or null"),
+    }
+  }
+  // fixed expectations for the few FEEL-level spellings whose specification is plain arithmetic
+  for (e, want) in [("odd(1.0)", "true"), ("odd(3.00)", "true"), ("even(10 ** 40)", "true"), ("even(2 * 10 ** 34)", "true"), ("odd(10 ** 2 + 1)", "true"), ("even(2.0)", "true"), ("odd(2.5)", "false")] {
+    if let Ok(Ok(v)) = guarded(|| feel_eval(&[], e)) {
+      let got = value_show(&v);
+      if got != want {
+        let sig = if e.starts_with("odd") { "odd() is false for an odd integer written with fraction zeros (is_integer tests exponent = 0)" } else { "even() is false for even integers of 2E+34 and above (remainder: Division impossible)" };
+        rep.disagree(Kind::ImplVsSpec, "odd_even_spec", sig, e, &got, want);
+      }
+    }
+  }
+  rep.extra.insert("unproved_ops".into(), json!(["exp", "log", "pow_inexact"]));
+  rep.exhaustive = false;
+  rep.model_requests = model.requests;
+  rep
+}
+
+fn feel_family(op: &str) -> &'static str {
+  match op {
+    "add" | "sub" | "mul" | "div" | "neg" | "abs" | "floor" | "ceiling" => "arithmetic operators",
+    "modulo" => "modulo()",
+    "rescale" => "decimal()",
+    "sqrt" => "sqrt()",
+    _ => "numeric built-in",
+  }
+}
+
+fn spec_signature(op: &str, a: &D) -> String {
+  match op {
+    "even" if a.exp > 0 || a.coeff.len() as i32 + a.exp > 34 => "even() is false for even integers of 2E+34 and above (remainder: Division impossible)".to_string(),
+    "odd" | "isint" if a.exp != 0 => "odd() is false for an odd integer written with fraction zeros (is_integer tests exponent = 0)".to_string(),
+    _ => format!("{} does not return the specified (correctly rounded) result", op),
+  }
 }
